@@ -224,6 +224,9 @@ class Normalizer:
         self.loop_uid = 0
         self.pshape = dict(self.shapes.params.get(self.name, {}))
         self.loop_shapes = {}
+        self.loop_inits = {}
+        self.loop_headers = {}   # loop uid -> header term of a `for` (N18 needs to know that an index is the variable of range(n))
+        self.lam_level = 0
         self.inliner = None      # optional Inlining(...) : module-level helpers are replaced by their (loop-free, effect-free) normal form
         self.attr_shapes = {}    # shapes of attributes of the first parameter (`self.<name>`), when a rule knows them
         self.module_aliases = set()   # global names bound to the kernel modules: alias.f(x) is the call f(x)
@@ -481,6 +484,7 @@ class Normalizer:
                 if len(tv) != 1 or not isinstance(st.target, ast.Name):
                     raise Unsupported('loop target')
                 header = ('for', self.expr(st.iter, env))
+                self.loop_headers[d] = header
                 assigned = [a for a in assigned if a != tv[0]]
             else:
                 if st.orelse:
@@ -490,6 +494,7 @@ class Normalizer:
             inits = {v: env.get(v, ('undef', '<local>')) for v in carried}
             for v in carried:
                 self.loop_shapes[(d, carried.index(v))] = self.shape(inits[v]) if v != '$eff' else None
+                self.loop_inits[(d, carried.index(v))] = inits[v]
             benv = dict(env)
             for k, v in enumerate(carried):
                 benv[v] = ('lv', d, k)
@@ -526,7 +531,7 @@ class Normalizer:
             if e.id in self.module_funcs:
                 return ('g', e.id)
             if e.id in ('float', 'int', 'len', 'range', 'abs', 'min', 'max', 'print', 'str', 'round', 'sum', 'list',
-                        'tuple', 'bool', 'isinstance', 'enumerate', 'zip'):
+                        'tuple', 'bool', 'isinstance', 'enumerate', 'zip', 'reversed'):
                 return ('g', e.id)
             if e.id in self.global_names:
                 return ('g', e.id)
@@ -553,6 +558,12 @@ class Normalizer:
             if isinstance(e.op, ast.Not):
                 return ('not', v)
             return ('un', type(e.op).__name__, v)
+        if isinstance(e, ast.BinOp) and isinstance(e.op, ast.Mult) and isinstance(e.left, ast.List) and len(e.left.elts) == 1 \
+                and not isinstance(e.right, (ast.List, ast.Tuple)):
+            # N18: a one-item list literal repeated n times is the array  j -> item  of length n
+            item, n = self.expr(e.left.elts[0], env), self.expr(e.right, env)
+            if self.shape(item) == () and not is_num(n):
+                return ('lam', self.lam_level, n, item)
         if isinstance(e, ast.BinOp):
             return self.binop(BINOPS[type(e.op)], self.expr(e.left, env), self.expr(e.right, env))
         if isinstance(e, ast.BoolOp):
@@ -584,6 +595,23 @@ class Normalizer:
             return ('lambda', ast.dump(e))
         if isinstance(e, ast.JoinedStr):
             return ('k', ast.dump(e))
+        if isinstance(e, ast.ListComp) and len(e.generators) == 1 and not e.generators[0].is_async \
+                and isinstance(e.generators[0].target, ast.Name):
+            # N18: [f(j) for j in range(n)] is the array  j -> f(j)  of length n ; over any other sequence a map of it
+            g = e.generators[0]
+            seq = self.expr(g.iter, env)
+            lvl = self.lam_level
+            env2 = dict(env)
+            env2[g.target.id] = ('bv', lvl)
+            self.lam_level += 1
+            try:
+                conds = tuple(self.expr(c, env2) for c in g.ifs)
+                body = self.expr(e.elt, env2)
+            finally:
+                self.lam_level -= 1
+            if not conds and seq[0] == 'call' and seq[1] == 'range' and len(seq[2]) == 1 and not seq[3]:
+                return ('lam', lvl, seq[2][0], body)
+            return ('lamseq', lvl, seq, body, conds)
         if isinstance(e, (ast.ListComp, ast.GeneratorExp, ast.Dict, ast.Set, ast.DictComp, ast.SetComp)):
             raise Unsupported('comprehension/dict expression at line %d' % e.lineno)
         raise Unsupported('expression %s' % type(e).__name__)
@@ -773,10 +801,32 @@ class Normalizer:
                 return None
         return [('idx', base, items[:k] + (num(v),) + items[k + 1:]) for v in range(lo, hi)]
 
+    def _list_root(self, t):
+        """the container a chain of stores started from is a Python list (items are kept as the very objects stored)"""
+        while isinstance(t, tuple) and t and t[0] in ('store', 'lv', 'lout'):
+            if t[0] == 'store':
+                t = t[1]
+            elif t[0] == 'lout':
+                t = t[1][3][t[2]][0]
+            else:
+                t = self.loop_inits.get((t[1], t[2]))
+        if isinstance(t, tuple) and t and t[0] == 'list':
+            return True
+        return isinstance(t, tuple) and t and t[0] == 'bin' and t[1] == '*' and isinstance(t[2], tuple) and t[2][0] == 'list'
+
     def index(self, b, items):
         ti = self._tuple_item(b, items)
         if ti is not None:
             return ti
+        # N20: reading back exactly the region just stored gives the stored value (same rank, no broadcast)
+        if b[0] == 'store' and b[2] == items:
+            v = b[3]
+            nsl = sum(1 for it in items if isinstance(it, tuple) and it[0] == 'sl')
+            vs = self.shape(v)
+            if nsl == 0 and self._list_root(b[1]):
+                return v
+            if nsl > 0 and vs is not None and not (vs and vs[0] == 'tuple') and len(vs) == nsl and all(isinstance(x, int) and x > 1 for x in vs):
+                return v
         # N14: chained indexing X[i][j] == X[i, j] for scalar i
         if b[0] == 'idx' and all(not (isinstance(it, tuple) and it[0] == 'sl') for it in b[2]):
             bs = self.shape(b[1])
@@ -821,6 +871,10 @@ class Normalizer:
 
     def store(self, cur, items, v):
         """functional update cur[items] = v; folds constant-region stores into fresh arrays into blocks."""
+        if isinstance(cur, tuple) and cur[0] == 'lam' and len(items) == 1 and isinstance(items[0], tuple) and items[0][0] == 'iv' \
+                and self.loop_headers.get(items[0][1]) == ('for', ('call', 'range', (cur[2],), ())) and self.shape(v) == ():
+            # N18: a[i] = v with i the variable of `for i in range(n)` and a of length n (always in range):  j -> v if j == i else a[j]
+            return ('lam', cur[1], cur[2], self.ite(canon_cmp('==', ('bv', cur[1]), items[0]), v, cur[3]))
         blk = self.as_block(cur)
         if blk is not None:
             shape = blk[1]
@@ -943,6 +997,17 @@ class Normalizer:
             return self.np_call(fn[1], args, kwargs)
         return ('call', fn, args, kwargs)
 
+    def int_add(self, t, k):
+        """t + k for an integer-valued term (range bounds): constants fold through one +/- level"""
+        if is_num(t):
+            return num(t[1] + k)
+        if t[0] == 'bin' and t[1] in ('+', '-') and is_num(t[3]):
+            c = (t[3][1] if t[1] == '+' else -t[3][1]) + k
+            if c == 0:
+                return t[2]
+            return ('bin', '+' if c > 0 else '-', t[2], num(abs(c)))
+        return ('bin', '+' if k > 0 else '-', t, num(abs(k)))
+
     def same_extent(self, term, ext):
         return False
 
@@ -962,6 +1027,12 @@ class Normalizer:
                 return self.dot(args[0], args[1])                      # N4
             if name == 'SafeClip' and len(args) == 3:
                 return ('call', 'SafeClip', args, ())
+        if name == 'reversed' and len(args) == 1 and not kwargs and args[0][0] == 'call' and args[0][1] == 'range' and not args[0][3]:
+            # N19: reversed(range(a, b)) visits b-1, ..., a: the iteration range(b - 1, a - 1, -1)
+            r = args[0][2]
+            if len(r) in (1, 2):
+                a, b = (num(0), r[0]) if len(r) == 1 else r
+                return ('call', 'range', (self.int_add(b, -1), self.int_add(a, -1), num(-1)), ())
         if name == 'float' and len(args) == 1 and is_num(args[0]):
             return args[0]
         if name == 'int' and len(args) == 1 and is_num(args[0]):
@@ -1099,6 +1170,8 @@ class Normalizer:
                         return (int(a[1]),)
                     if a[0] == 'tuple' and all(is_num(x) for x in a[1]):
                         return tuple(int(x[1]) for x in a[1])
+                    if a[0] == 'tuple' and all(is_num(x) or self.shape(x) == () for x in a[1]):
+                        return tuple(int(x[1]) if is_num(x) else '?' for x in a[1])     # symbolic extent
                     return None
                 if name == 'numpy.cross':
                     return (3,)
